@@ -3,6 +3,7 @@ conditions (from CFG dominance), comparison normalisation, local def-use."""
 from __future__ import annotations
 
 import ast
+import sys
 from typing import Callable, Iterable, Optional
 
 from .cfg import CFG, cfg_of
@@ -11,10 +12,14 @@ from .report import AnalysisError
 
 
 class Fn:
+    consulted: set = set()  # every function a rule set looked at during this run (reported in the evidence)
+
     def __init__(self, repo: Repo, ref: str):
         self.repo = repo
         self.ref = ref
         self.node = repo.func(ref)
+        if sys._getframe(1).f_globals.get("__name__", "").startswith("rules."):
+            Fn.consulted.add(ref)
         self.mod = self.node._module  # type: ignore[attr-defined]
         self.qual = self.node._qualname  # type: ignore[attr-defined]
         self._cfg: Optional[CFG] = None
